@@ -225,3 +225,42 @@ func VerifH_C15_CrowdedTableIsolation() {
 	eb, okb := cl.m.Load(cl.mask(b))
 	verifrt.Assert(oka && okb && ea.l == calls[0] && eb.l == calls[1], "each client's bucket is the one kept under its own subnet key")
 }
+
+// VerifH_C15_RacingFirstQueries: the budget of a subnet is ONE bucket also when its first queries arrive at the same
+// time on different threads (UDP read threads, per-connection goroutines): two (thorough three) concurrent AllowN
+// calls for addresses of one so far unknown /24, a pre-emption possible before every operation of the bucket table and
+// every lock operation (≤ 2 deviations): all of them are charged to the same token bucket, and that bucket is the one
+// kept in the table afterwards.
+func VerifH_C15_RacingFirstQueries() {
+	verifrt.Unwind(80)
+	verifrt.SchedBound(2)
+	verifrt.PreemptSync()
+	verifrt.NoTimers()
+	var calls []*rate.Limiter
+	verifrt.Redirect("(*golang.org/x/time/rate.Limiter).AllowN", func(l *rate.Limiter, now time.Time, n int) bool {
+		calls = append(calls, l)
+		return true
+	})
+	o := ClientLimiterOpts{Limit: 5, Burst: 7, V4Mask: 24, V6Mask: 48}
+	cl := &ClientLimiter{opts: o, m: xsync.NewMapOf[netip.Addr, *e]()}
+	n := 2 + verifrt.Tier
+	now := time.Now()
+	done := make(chan struct{}, n)
+	for i := 0; i < n; i++ {
+		host := byte(10 + i)
+		go func() {
+			cl.AllowN(netip.AddrFrom4([4]byte{192, 0, 2, host}), now, 1)
+			done <- struct{}{}
+		}()
+	}
+	for i := 0; i < n; i++ {
+		<-done
+	}
+	verifrt.Reach("charged")
+	verifrt.Assert(len(calls) == n, "every request consults exactly one bucket")
+	for i := 1; i < n; i++ {
+		verifrt.Assert(calls[i] == calls[0], "concurrent first queries of one subnet are charged to one and the same bucket")
+	}
+	kept, ok := cl.m.Load(netip.AddrFrom4([4]byte{192, 0, 2, 0}))
+	verifrt.Assert(ok && kept.l == calls[0], "which is the bucket the table keeps for that subnet")
+}
